@@ -115,6 +115,15 @@ func (wc *wrapCtx) analyse() {
 	}
 	once := true
 	for al := range wc.hoisted {
+		if storesTo[al] == 0 {
+			// a composite literal is built in place: field / element stores into the cell
+			for _, r := range *al.Referrers() {
+				switch r.(type) {
+				case *ssa.FieldAddr, *ssa.IndexAddr:
+					storesTo[al] = 1
+				}
+			}
+		}
 		if storesTo[al] != 1 {
 			once = false
 			wc.notes = append(wc.notes, fmt.Sprintf("hoisted cell %s assigned %d times", al.Comment, storesTo[al]))
